@@ -330,7 +330,9 @@ func c16def(c *Ctx, prefix, term string) string {
 	c16defNames[prefix+term] = n
 	typ := map[string]string{"w": "token", "b": "list ((N * Z) * bool)", "s": "pre"}[prefix]
 	fmt.Fprintf(&c16defs, "Definition %s : %s := %s.\n", n, typ, term)
-	c.BeginCases(c16preamble+c16defs.String(), "case", 0)
+	// the preamble only ever grows (earlier cases stay valid under it): set it without closing the
+	// current case file, which BeginCases would do on a changed preamble
+	c.header = c16preamble + c16defs.String()
 	return n
 }
 
